@@ -74,3 +74,8 @@ add('C19', 'SYS', 'model_checking',
     'BFS over histories where PR events, child-PR events and commit events on every source/integration/queue tip arrive in every order and multiplicity, with pushes, decline and merge; after every transition: at most one open integration PR per (branch, target), named and titled after its parent, branches only for targets beyond the first, exact cleanup on decline and merge; and the redirect differential: the event on a child PR or integration commit reaches the same state as the event on the parent.',
     'mock git host (integration PRs whose branch vanished stay OPEN there); bounds in the evidence.',
     'explicit-state BFS with state monitor + differential deviation', 'DESIGN.md section 5 C19')
+
+add('C15', 'SYS', 'model_checking',
+    'After integration branches exist for two pull requests: every sequence (<=2 quick, <=3 thorough) of source / destination / manual-commit operations followed by reset or force_reset, the evaluation executing it and the next one, on the real code with a virtual commit clock; oracle from harness ground truth (which commits are manual): reset refuses and changes nothing when manual work exists; either command deletes exactly the integration branches and declines exactly the integration PRs of that pull request; the next evaluation rebuilds them.',
+    'manual work = commits the harness made on top of an integration branch; layouts D3, E3 (two development branches on one commit), S3, queue and no-queue; one known finding (fast-forwarded integration branch) is listed in known_findings.json.',
+    'explicit-state search over operation sequences with ground-truth oracle', 'DESIGN.md section 5 C15')
